@@ -109,4 +109,20 @@ theorem edns_summary {p : Bytes} {v : View} (h : parse p = .ok v) :
 /-! non-vacuity: a response with an OPT carrying one option, a query without OPT -/
 example : (parse C02.okPacket).isOk = true := by decide
 
+
+/-! ### The header summary, stated about the getters translated from the current source text
+(`Generated/TrHeader.lean`, rewritten by rs2lean.py on every run; equalities in `Tie/Header.lean`).
+`ExtOK`: the EDNS flags are an `Option<u16>` in Rust. -/
+
+theorem source_header_summary (p : Bytes) (ext : Option Nat) (hp : 12 ≤ p.length) (hext : Tie.ExtOK ext) :
+    Tr.Header.tid p = .ok (get16 p 0) ∧ Tr.Header.opcode p = .ok (C12.opcodeOf (C12.word p)) ∧
+    Tr.Header.rcode p = .ok (C12.rcodeOf (C12.word p)) ∧
+    Tr.Header.is_response p ext = .ok ((C12.word p).testBit 15) ∧
+    (∃ f, Tr.Header.flags p ext = .ok f ∧ (∀ i, i < 16 → f.testBit i = (flagBit i && (C12.word p).testBit i)) ∧
+        (∀ i, f.testBit (i + 16) = (ext.getD 0).testBit i)) ∧
+    Tr.Header.dnssec p ext = .ok (if (C12.word p).testBit 15 then (C12.word p).testBit 5 else (ext.getD 0).testBit 15) := by
+  simp only [Tie.tid_eq, Tie.opcode_eq, Tie.rcode_eq, Tie.is_response_eq p ext hext, Tie.flags_eq p ext hext,
+    Tie.dnssec_eq p ext hext]
+  exact header_summary p ext hp
+
 end Dns.C04
